@@ -41,7 +41,7 @@ def parse_file(filepath: PathLike) -> RecordsDatabase:
         filepath: Database file path.
 
     Raises:
-        DatabaseError: Can't open file
+        DatabaseError: Can't open file, or it isn't UTF-8 text
 
     Returns:
         p0f records database
@@ -49,8 +49,8 @@ def parse_file(filepath: PathLike) -> RecordsDatabase:
     try:
         with open(filepath, mode="r", encoding="utf-8") as file:
             return _parse_file(file)
-    except OSError as e:
-        raise DatabaseError("Can't open database file for parsing") from e
+    except (OSError, UnicodeDecodeError) as e:
+        raise DatabaseError("Can't read database file for parsing") from e
 
 
 def _parse_file(file: TextIO) -> RecordsDatabase:
